@@ -581,6 +581,11 @@ def run_conv(case, ctx, teneva):
     rmax = int(case.get('rmax', 5))
     r = [1] + [int(rng.integers(1, rmax + 1)) for _ in range(d - 1)] + [1]
     Y = [layout(rng, make_core(rng, fam, r[k], q, r[k + 1])) for k in range(d)]
+    if rng.random() < 0.04:
+        # an identically zero TT-core (the zero tensor in TT form) is a valid
+        # input: its QTT image must be the zero QTT-tensor, finite everywhere
+        Y[int(rng.integers(d))][...] = 0.
+        ctx.event('zero-core-input')
     if any(r[k + 1] > r[k] * n or r[k] > n * r[k + 1] for k in range(d)):
         ctx.event('overlarge-rank')
 
